@@ -213,7 +213,25 @@ func ruleWatch2(c *Ctx, r *Reporter) {
 		return
 	}
 	n := 0
-	for _, g := range withClosures(fn) {
+	scan := withClosures(fn)
+	// a package function the token is handed to: its parameter is the token there
+	allInstrs(fn, func(in ssa.Instruction) {
+		call, ok := in.(*ssa.Call)
+		if !ok {
+			return
+		}
+		h := staticFn(&call.Call)
+		if h == nil || h.Blocks == nil || h == fn || fnPkgPath(h) != pkgLungo {
+			return
+		}
+		for i, a := range call.Call.Args {
+			if name, isTok := tokens[a]; isTok && i < len(h.Params) {
+				tokens[h.Params[i]] = name
+				scan = append(scan, withClosures(h)...)
+			}
+		}
+	})
+	for _, g := range scan {
 		allInstrs(g, func(in ssa.Instruction) {
 			call, ok := in.(*ssa.Call)
 			if !ok || calleeObj(&call.Call) != cmpF {
@@ -342,7 +360,7 @@ func ruleLog6(c *Ctx, r *Reporter) {
 	}
 	// the loop over changes.Changed
 	var next *ssa.Next
-	allInstrs(fn, func(in ssa.Instruction) {
+	coneInstrs(fn, func(in ssa.Instruction) {
 		nx, ok := in.(*ssa.Next)
 		if !ok {
 			return
@@ -361,6 +379,7 @@ func ruleLog6(c *Ctx, r *Reporter) {
 		r.bad("append:loop over Changed", c.pos(fn.Pos()), "no loop over changes.Changed found")
 		return
 	}
+	fn = next.Parent() // the loop may live in a private helper of append
 	hdr := next.Block()
 	var val ssa.Value
 	if refs := next.Referrers(); refs != nil {
@@ -656,8 +675,9 @@ func ruleAtom7(c *Ctx, r *Reporter) {
 			r.bad("anchor:"+name+" ordered", c.pos(fn.Pos()), "no ordered parameter")
 			continue
 		}
+		isOrdered := func(v ssa.Value) bool { return resolveHelperValue(v) == ssa.Value(ordered) }
 		seenIf := map[*ssa.If]bool{}
-		allInstrs(fn, func(in ssa.Instruction) {
+		coneInstrs(fn, func(in ssa.Instruction) {
 			call, ok := in.(*ssa.Call)
 			if !ok || !isHelper(staticFn(&call.Call)) {
 				return
@@ -692,7 +712,7 @@ func ruleAtom7(c *Ctx, r *Reporter) {
 					// the path leaves the loop (or the function)
 					decidedOrdered := false
 					for _, d := range p {
-						if d.cond == ssa.Value(ordered) && d.taken {
+						if isOrdered(d.cond) && d.taken {
 							decidedOrdered = true
 						}
 					}
@@ -715,8 +735,24 @@ func ruleWin7(c *Ctx, r *Reporter) {
 		r.bad("anchor:bsonkit.Order", "-", "not found")
 		return
 	}
+	fns := []*ssa.Function{fn}
+	allInstrs(fn, func(in ssa.Instruction) {
+		if call, ok := in.(*ssa.Call); ok {
+			if h := staticFn(&call.Call); h != nil && h.Blocks != nil && h != fn && fnPkgPath(h) == pkgBsonkit {
+				for _, p := range h.Params {
+					if typeKey(p.Type()) == "[]bsonkit.Column" {
+						fns = append(fns, h)
+					}
+				}
+			}
+		}
+	})
 	n := 0
-	for _, ret := range returnsOf(fn) {
+	var rets []*ssa.Return
+	for _, g := range fns {
+		rets = append(rets, returnsOf(g)...)
+	}
+	for _, ret := range rets {
 		hdr := innermostLoopHeader(ret.Block())
 		if hdr == nil {
 			hdr = lexicalLoopHeader(ret.Block())
